@@ -70,6 +70,17 @@ func stressMutators(rounds, workers int, seed uint64) []string {
 			s.SetFIFO(true)
 		}
 		s.SetMutex()
+		// every fourth round: a push policy that turns away every fifth token
+		// (the rejection is recorded by Push while it holds the lock)
+		rejecting := round%4 == 2
+		if rejecting {
+			s.SetPushPolicy(func(x ...any) error {
+				if n, ok := x[0].(int); ok && n%5 == 0 {
+					return fmt.Errorf("token %d turned away", n)
+				}
+				return nil
+			})
+		}
 		var token int64
 		var pushed, removed sync.Map
 		var wg sync.WaitGroup
@@ -99,7 +110,9 @@ func stressMutators(rounds, workers int, seed uint64) []string {
 					switch r.Intn(9) {
 					case 0, 1:
 						n := int(atomic.AddInt64(&token, 1))
-						pushed.Store(n, true)
+						if !(rejecting && n%5 == 0) {
+							pushed.Store(n, true)
+						}
 						s.Push(n)
 					case 2:
 						take(s.Pop())
